@@ -1,5 +1,5 @@
 (* C07 — transaction tokens map one-to-one onto open pre-authorisations.  Statements only. *)
-From Zvt Require Import Base Length Cp437 Encoding Codec Lookup Client ClientProps ClientWire.
+From Zvt Require Import Base Length Cp437 Encoding Codec Lookup Client ClientProps ClientLog ClientWire ClientSent.
 Open Scope N_scope.
 
 (* the invariant of the token map — no token twice, never more than the configured maximum — holds
@@ -82,6 +82,20 @@ Theorem C07_cancel_uses_the_tokens_receipt : forall cfg st tok rn w id,
               Ok (preauth_reversal_value (c_currency cfg) rn, r).
 Proof. exact cancel_reverses_that_reservation. Qed.
 
+(* at the level of the log, for every world: a begin writes nothing but housekeeping (acknowledgements; registration and
+   identity query when the connection has to be re-established) and THE reservation for its token — on every retry the same
+   token, amount and currency; a begin the map refuses writes nothing at all *)
+Theorem C07_begin_writes_only_its_reservation : forall cfg st tok w,
+  sent_in (fun b => housekeeping cfg b \/ b = reservation_req cfg tok) w (snd (begin_transaction cfg st tok w)).
+Proof. exact begin_exact_vocabulary. Qed.
+Theorem C07_refused_begin_is_silent : forall cfg st tok w,
+  N.of_nat (length (s_txs st)) = s_max st \/ assoc_tok tok (s_txs st) <> None ->
+  snd (begin_transaction cfg st tok w) = w.
+Proof. exact refused_begin_is_silent. Qed.
+Theorem C07_unknown_token_is_silent : forall cfg st tok amount w, assoc_tok tok (s_txs st) = None ->
+  snd (commit_transaction cfg st tok amount w) = w /\ snd (cancel_transaction cfg st tok w) = w.
+Proof. exact unknown_token_is_silent. Qed.
+
 Print Assumptions C07_cancel_closes_token.
 Print Assumptions C07_commit_uses_the_tokens_receipt.
 Print Assumptions C07_cancel_uses_the_tokens_receipt.
@@ -96,3 +110,6 @@ Print Assumptions C07_commit_refused_when_unknown.
 Print Assumptions C07_cancel_refused_when_unknown.
 Print Assumptions C07_begin_effect.
 Print Assumptions C07_consume_is_fold.
+Print Assumptions C07_begin_writes_only_its_reservation.
+Print Assumptions C07_refused_begin_is_silent.
+Print Assumptions C07_unknown_token_is_silent.
